@@ -243,7 +243,7 @@ Fixpoint strs_eqb (a b : list str) : bool :=
 Definition check_bcase (c : bcase) : bool :=
   bdict_eqb (get_breakpoints c.(b_A) c.(b_L) c.(b_S) c.(b_table)) c.(b_observed) &&
   strs_eqb (bp_warnings c.(b_L) c.(b_table)) c.(b_warnings).
-(* the specification of the domain, evaluated on the observed dictionary *)
+(* the specification of the domain and of the warnings, evaluated on the observed dictionary / output *)
 Definition spec_bcase (c : bcase) : bool :=
   let dom := map fst c.(b_observed) in
   let want a := mem_z a c.(b_A) ||
@@ -252,4 +252,7 @@ Definition spec_bcase (c : bcase) : bool :=
   forallb want dom &&
   forallb (fun a => mem_z a dom) c.(b_A) &&
   forallb (fun l => match lookup c.(b_table) l with Some x => mem_z x dom | None => true end) c.(b_L) &&
-  forallb (fun la => negb (existsb (fun s => substr s (fst la)) c.(b_S)) || mem_z (snd la) dom) c.(b_table).
+  forallb (fun la => negb (existsb (fun s => substr s (fst la)) c.(b_S)) || mem_z (snd la) dom) c.(b_table) &&
+  (* the warnings are exactly the exact labels that are not in the table (C16_breakpoint_warnings) *)
+  forallb (fun l => mem_str l c.(b_L) && negb (has_key c.(b_table) l)) c.(b_warnings) &&
+  forallb (fun l => has_key c.(b_table) l || mem_str l c.(b_warnings)) c.(b_L).
